@@ -96,8 +96,15 @@ impl Case {
         let rt = RefTable::new(&g)?;
         let comb = Comb::new(&g);
         let ext_v = distinct(&g.externals);
-        let ext = external_momenta(&ext_v, g.dim, spec.mom_variant);
-        let masses = mass_values(&g, spec.mass_variant);
+        // units: mom_variant = variant + 10 * unit; unit 1 expresses every dimensionful quantity in units 2^30 times larger
+        // (|p|^2 and m^2 of order 1e-17), unit 2 in units 2^24 times smaller. Exact powers of two: still exact in f64.
+        let scale = match spec.mom_variant / 10 {
+            0 => Q::one(),
+            1 => qr(1, 1 << 30),
+            _ => qi(1 << 24),
+        };
+        let ext: Vec<(u8, Vec<Q>)> = external_momenta(&ext_v, g.dim, spec.mom_variant % 10).into_iter().map(|(v, p)| (v, p.iter().map(|c| c * &scale).collect())).collect();
+        let masses: Vec<Option<Q>> = mass_values(&g, spec.mass_variant).into_iter().map(|m| m.map(|m| m * &scale)).collect();
         let fpoly = f_poly(&comb, &ext, &masses);
         let generic = ext_v.len() != 1 && partial_sums_nonzero(&ext) && !fpoly.is_zero();
         let nl = g.loop_number(g.full());
@@ -390,6 +397,99 @@ pub fn dl_grid_cases() -> Vec<CaseSpec> {
         }
     }
     res
+}
+
+/// SIZE LADDER: configurations beyond the capacity boundaries of the implementation and of small-graph reasoning - more than
+/// 6 loops (the L matrix leaves its inline 6x6 storage), more than 8 edges, more than 64 signature entries (edges x loops),
+/// D*L >= 17 Gaussian components - each in a few topologies. They are explored on a fixed subset of sectors (`sector_subset`).
+pub fn large_cases(tier: Tier) -> Vec<CaseSpec> {
+    let mut res = vec![];
+    let mut push = |topo: &[(u8, u8)], massive: Vec<bool>, ext: Vec<u8>, dims: &[usize], distinct_w: bool, label: &str| {
+        let ne = topo.len();
+        for &d in dims {
+            for w0 in [1.0f64, 0.75, 1.25, 1.5, 2.0, d as f64 / 2.0 + 0.25, d as f64] {
+                let weights: Vec<f64> = (0..ne).map(|e| if distinct_w { w0 + e as f64 / 32.0 } else { w0 }).collect();
+                let g = mk(topo, &massive, &weights, &ext, d);
+                if admissible(&g) {
+                    res.push(CaseSpec { g, mom_variant: d % 2, mass_variant: ne % 2, label: label.to_string() });
+                    break;
+                }
+            }
+        }
+    };
+    // one-loop polygons, every vertex external
+    for ne in tier.pick(vec![7usize, 9, 10], vec![7, 8, 9, 10, 11, 12]) {
+        let topo: Vec<(u8, u8)> = (0..ne).map(|i| (i as u8, ((i + 1) % ne) as u8)).collect();
+        let ext: Vec<u8> = (0..ne as u8).collect();
+        push(&topo, vec![false; ne], ext.clone(), &[3, 4], true, "polygon");
+        push(&topo, (0..ne).map(|e| e % 2 == 1).collect(), ext, &[3], true, "polygon");
+    }
+    // bananas and flowers with 6..8 loops
+    for l in tier.pick(vec![5usize, 6, 7, 8], vec![5, 6, 7, 8, 9]) {
+        let b = banana(l);
+        push(&b, vec![true; b.len()], vec![0, 1], &[1, 3, 4], false, "banana");
+        let f = flower(l);
+        push(&f, vec![true; l], vec![], &[2, 3], true, "flower");
+    }
+    // 9-cycle with 4 chords: 5 loops, 13 edges (65 signature entries), the last chords carry their own loop momenta
+    let mut c13: Vec<(u8, u8)> = (0..9u8).map(|i| (i, (i + 1) % 9)).collect();
+    c13.extend([(0u8, 3u8), (1, 5), (2, 7), (4, 8)]);
+    push(&c13, (0..13).map(|e| e % 3 == 0).collect(), vec![0, 4, 6], &[3], true, "chorded-cycle");
+    // chain of 4 bubbles closed to a ring: 5 loops, 8 edges, block structure in L
+    let ring: Vec<(u8, u8)> = vec![(0, 1), (0, 1), (1, 2), (1, 2), (2, 3), (2, 3), (3, 0), (3, 0)];
+    push(&ring, vec![false; 8], vec![0, 2], &[3], true, "bubble-ring");
+    push(&ring, vec![true; 8], vec![0, 1, 2], &[2], false, "bubble-ring");
+    if tier == Tier::Thorough {
+        // 14-cycle with 3 chords: 4 loops, 17 edges (68 signature entries)
+        let mut c17: Vec<(u8, u8)> = (0..14u8).map(|i| (i, (i + 1) % 14)).collect();
+        c17.extend([(0u8, 5u8), (2, 9), (6, 12)]);
+        push(&c17, (0..17).map(|e| e % 4 == 1).collect(), vec![0, 7], &[3], true, "chorded-cycle");
+    }
+    res
+}
+
+/// a fixed, deterministic subset of the E! sectors for large E: identity, reverse, a rotation, evens-then-odds,
+/// odds-reversed-then-evens, inside-out; plus all rotations of identity and reverse when `more`
+pub fn sector_subset(ne: usize, more: bool) -> Vec<Vec<usize>> {
+    let id: Vec<usize> = (0..ne).collect();
+    let rev: Vec<usize> = id.iter().rev().cloned().collect();
+    let rot = |v: &Vec<usize>, k: usize| -> Vec<usize> { (0..ne).map(|i| v[(i + k) % ne]).collect() };
+    let mut res = vec![id.clone(), rev.clone(), rot(&id, ne / 2)];
+    let evens: Vec<usize> = (0..ne).filter(|i| i % 2 == 0).collect();
+    let odds: Vec<usize> = (0..ne).filter(|i| i % 2 == 1).collect();
+    res.push(evens.iter().chain(odds.iter()).cloned().collect());
+    res.push(odds.iter().rev().chain(evens.iter()).cloned().collect());
+    let mut inside: Vec<usize> = vec![];
+    let (mut lo, mut hi) = (ne as isize / 2 - 1, ne / 2);
+    while inside.len() < ne {
+        if hi < ne {
+            inside.push(hi);
+            hi += 1;
+        }
+        if lo >= 0 {
+            inside.push(lo as usize);
+            lo -= 1;
+        }
+    }
+    res.push(inside);
+    if more {
+        for k in 1..ne {
+            res.push(rot(&id, k));
+            res.push(rot(&rev, k));
+        }
+    }
+    let mut seen = std::collections::BTreeSet::new();
+    res.retain(|o| seen.insert(o.clone()));
+    res
+}
+
+/// all E! sectors up to 8 edges, the fixed subset above that
+pub fn sectors_for(ne: usize, more: bool) -> Vec<Vec<usize>> {
+    if ne <= 8 {
+        all_sectors(ne)
+    } else {
+        sector_subset(ne, more)
+    }
 }
 
 // ---------------------------------------------------------------------------------------------------
